@@ -24,6 +24,14 @@ func builtinGlobalEval(call FunctionCall) Value {
 		// Not a direct call to eval, so we enter the global ExecutionContext
 		rt.enterGlobalScope()
 		defer rt.leaveScope()
+	} else if scop := rt.scope; scop != nil {
+		// A direct call to eval runs in the scope of its caller, so no scope is
+		// entered: count the nesting against the stack depth limit there.
+		if rt.stackLimit != 0 && scop.depth+1 >= rt.stackLimit {
+			panic(rt.panicRangeError("Maximum call stack size exceeded"))
+		}
+		scop.depth++
+		defer func() { scop.depth-- }()
 	}
 	returnValue := rt.cmplEvaluateNodeProgram(program, true)
 	if returnValue.isEmpty() {
